@@ -14,6 +14,10 @@ SRst == /\ More /\ Ev.op = "reset" /\ dcfg.kind = "stream" /\ StreamReset /\ Cou
 BRef == /\ More /\ Ev.op = "set_reference" /\ SetReference(Ev.data, Ev.c) /\ Counters /\ CritOK /\ Adv
 BUpd == /\ More /\ Ev.op = "update" /\ dcfg.kind = "batch"
         /\ BatchStep(Ev.data, Ev.c0) /\ Counters /\ DistOK(dist') /\ CritOK /\ Adv
-Next == SUpd \/ SRst \/ BRef \/ BUpd
+Diag == /\ Note("critical value outside the bracket of the documented (1 - alpha) bootstrap quantile",
+                More /\ Ev.op # "reset" /\ Ev.c.lo # "None" /\ ~BracketOK(Ev.c), Ev.c)
+        /\ Note("critical value (of the re-built reference) outside its bracket",
+                More /\ Ev.op = "update" /\ dcfg.kind = "batch" /\ Ev.c0.lo # "None" /\ ~BracketOK(Ev.c0), Ev.c0)
+Next == Diag /\ (SUpd \/ SRst \/ BRef \/ BUpd)
 Spec == Init /\ [][Next]_tvars
 =============================================================================
